@@ -202,8 +202,11 @@ def monitor_cases(rng, tier, stats):
             bkeep = b.clone()
             if guess and seed % 3 == 0:
                 x0 = b                      # the right-hand side itself as warm start: the same object in two argument positions
-            x = S.amen_solve(A, b, x0=x0, eps=eps, nswp=40, preconditioner=prec, max_full=max_full, local_solver=local_solver,
-                             use_cpp=False, verbose=False, kickrank=4)
+            import contextlib, io
+            with contextlib.redirect_stdout(io.StringIO()):
+                # verbose printing must not change the result (every 5th run prints)
+                x = S.amen_solve(A, b, x0=x0, eps=eps, nswp=40, preconditioner=prec, max_full=max_full, local_solver=local_solver,
+                                 use_cpp=False, verbose=(seed % 5 == 0), kickrank=4)
             if not isinstance(x, torchtt.TT) or x.is_ttm or list(x.N) != list(N):
                 return "bad-shape %s" % (getattr(x, "N", None),)
             b = bkeep
